@@ -40,3 +40,8 @@ Fixpoint be_min_fuel (fuel : nat) (v : N) : bytes :=
   | S f => if v =? 0 then [] else be_min_fuel f (v / 256) ++ [v mod 256]
   end.
 Definition be_min (v : N) : bytes := be_min_fuel (S (N.size_nat v)) v.
+
+(* ---- text option values (OptionValueString) ---- *)
+From CoapV Require Import Utf8.
+Definition string_try_from (bs : bytes) : outcome bytes :=
+  if utf8_valid bs then Ok bs else Err ERR_INCOMPATIBLE.
